@@ -169,11 +169,14 @@ LineBaseInv == iline = LineBase(TT, ws)
 Refines == pc = "done" => rep = ReportOfView(TT, ViewPipe(TT, ValsOf(T), ErrOf(S), Bounds(hist)))
 PipeCorrect == pc = "done" => Correct(TT, ErrOf(S), Obs)
 PipeCorrectOrKnown == pc = "done" => (Correct(TT, ErrOf(S), Obs) \/ InDiscarded(CurView, ErrOf(S), N) \/ LoneCRSkipped(TT, CurView))
+\* outside the discarded-read-ahead class a wrong report has exactly the observable signature of D13
+PipeSignature == pc = "done" => (Correct(TT, ErrOf(S), Obs) \/ InDiscarded(CurView, ErrOf(S), N) \/ D13Signature(TT, ErrOf(S), Obs))
 \* the known classes are not excuses: inside them the code really is wrong somewhere (checked as "not always correct" by the d9 config)
 
 FileObs == LET r == ReportOfView(TT, ViewFile(TT, ErrOf(S))) IN [line |-> r.line, ex |-> r.ex, col |-> r.col]
 FileCorrect == Correct(TT, ErrOf(S), FileObs)
 FileCorrectOrKnown == FileCorrect \/ LoneCRSkipped(TT, ViewFile(TT, ErrOf(S)))
+FileSignature == FileCorrect \/ D13Signature(TT, ErrOf(S), FileObs)
 \* getContents literally (bytes re-read, LF counted chunk by chunk) = ViewFile
 FileLiteral ==
   LET e == ErrOf(S)
